@@ -176,6 +176,14 @@ def wrapper_table(ctx: Ctx, I: Interp, rule: str = "C17.wrap", only: Any = None)
             else:
                 got = f"{len(calls)} calls"
             seen[k] = got
+            if k in ("REPR_ONLY", "TAGIFIABLE_ONLY", "TAGIFIABLE_REPR", "TAG", "TAGLIST", "JSXTAG") and calls:
+                first_call = l.effects.index(calls[0])
+                eqs = [e for e in l.effects[:first_call] if e.kind == "eqcmp" and e.target is v]
+                ctx.check(not eqs, rule, f"a displayed {k} object is dispatched by its type, without comparing it with == first", where,
+                          f"{k}: compared with {[short(x) for x in (eqs[0].value if eqs else [])]} before the hand-over",
+                          f"a displayed object of kind {k} is compared by equality (`in (None, ...)` / `==`) before it is handed on: an object whose __eq__ is "
+                          f"element-wise, raises or is permissive (data frames, arrays, proxies) is dropped or makes the display fail instead of being kept",
+                          witness="with div(): df   # an object with _repr_html_ whose == returns an array")
             ctx.check(got == want, rule, f"displayed {k} value -> {want}", where, f"{k} -> {got}",
                       f"a displayed value of kind {k} is handled as `{got}`; the rule is `{want}` (tags/tagifiables appended as is, _repr_html_ "
                       f"objects kept as HTML, None and Ellipsis ignored, everything else passed to the child rules)",
@@ -200,6 +208,34 @@ def field_writers(ctx: Ctx, I: Interp, field: str) -> None:
                       for t in (st.targets if isinstance(st, _ast.Assign) else [st.target])
                       if isinstance(t, _ast.Attribute) and t.attr == field]
             dels = [t for st in _ast.walk(fn) if isinstance(st, _ast.Delete) for t in st.targets if isinstance(t, _ast.Attribute) and t.attr == field]
+            # ... or through the instance dictionary: self.__dict__["field"] = ..., d = self.__dict__; d["field"] = ...
+            via_dict = [t for st in _ast.walk(fn) if isinstance(st, (_ast.Assign, _ast.AugAssign, _ast.Delete))
+                        for t in (st.targets if isinstance(st, (_ast.Assign, _ast.Delete)) else [st.target])
+                        if isinstance(t, _ast.Subscript) and isinstance(t.slice, _ast.Constant) and t.slice.value == field]
+            if via_dict and qual not in allowed and fn.args.args and qual.startswith("Tag."):
+                n += 1
+                cfgd = Config()
+                cfgd.opaque_all = True
+
+                def mkd(run: Any, fn: Any = fn):
+                    s_ = SObj("self", {"TAG"})
+                    run.__dict__["s"] = s_
+                    return ({fn.args.args[0].arg: s_}, s_)
+
+                badd = False
+                try:
+                    for l in I.run_function(mod.name, qual, mkd, cfgd):
+                        s_ = l.run.__dict__["s"]
+                        for e in l.effects:
+                            if e.kind in ("store_item", "del_item") and e.key == field and isinstance(e.target, SDict) and e.target.__dict__.get("fields_of") is s_:
+                                badd = True
+                except Unmodelled:
+                    badd = True
+                ctx.check(not badd, "C17.field", f"{qual} does not write the saved-hook field of an existing tag", f"{mod.name}:{qual}",
+                          f"{qual}: <instance dict of the receiver>[{field!r}] = ...",
+                          f"{qual} writes `{field}` into the instance dictionary of the tag it is called on: if that tag's `with` block is active its saved hook is "
+                          f"lost - __exit__ then installs the wrong hook (or None) and a re-entry is no longer detected",
+                          witness="with t: copy(t)  # or str(t) / t.tagify(); leaving the block sets sys.displayhook = None")
             if not stores and not dels:
                 continue
             n += 1
